@@ -17,7 +17,7 @@ import (
 
 // attribute-name universe, lexicographically sorted: id = position+1, so the order of the ids is the order
 // Float{1,2,3,4}Attributes() (sort.Strings) reports and the order the model's sorted association list keeps.
-var attrNames = []string{"Class", "Color", "Custom", "Intensity", "Normal", "Position", "TexCoord", "Weight"}
+var attrNames = []string{"Class", "Color", "Custom", "Intensity", "Normal", "Position", "Scale", "TexCoord", "Weight"}
 
 func attrID(name string) int {
 	for i, n := range attrNames {
